@@ -16,7 +16,7 @@
      [clip_keeps_mask ...]    the SigmaClip output mask contains the mask it was given (trivially
                               true when sigma_clip is None).
    The harness checks all three on every generated case. *)
-From Coq Require Import List ZArith Bool Permutation Sorted.
+From Coq Require Import List ZArith Bool Lia Permutation Sorted.
 From PV Require Import lib.Cases C16_Model C16_Proofs.
 Import ListNotations.
 Open Scope Z_scope.
@@ -230,3 +230,22 @@ Example ex_shift_window :
     | None => None
     end.
 Proof. vm_compute. reflexivity. Qed.
+
+(* hypotheses of [sum_eq_photometry] on the same example: the mask handed to aperture_photometry is
+   mask | non-finite | clipped; the reference sums agree with [ex_stats] *)
+Definition ex_M : img bool :=
+  [[false; false; false; false; false]; [false; true; false; false; false];
+   [true; false; false; false; false]; [true; false; false; false; false]].
+Example ex_sum_eq_photometry_hypotheses :
+  nonneg (a_Ws ex_a) /\
+  photmask_ok ex_sc (a_box ex_a) (a_Ws ex_a) 8 (a_clips ex_a) ex_M /\
+  A_pixels ex_sc (a_box ex_a) (a_Ws ex_a) (a_clips ex_a) <> [] /\
+  photometry_one_ref (a_box ex_a) (a_Ws ex_a) 4 5 (sub_img (s_data ex_sc) 8) (s_err ex_sc) (Some ex_M)
+    = (Some 384, Some 320) /\
+  area_overlap_one_ref (a_box ex_a) (a_Ws ex_a) 4 5 (Some ex_M) = Some 5.
+Proof.
+  split; [unfold nonneg, ex_a, a_Ws; solve_get2; lia|].
+  split; [unfold photmask_ok; vm_compute; intros jk [<-|[<-|[<-|[<-|[<-|[<-|[]]]]]]]; reflexivity|].
+  split; [vm_compute; discriminate|].
+  vm_compute. split; reflexivity.
+Qed.
